@@ -1,7 +1,9 @@
 """C06 - capacity discipline: no overrun for any buffer size, and the size bounds hold"""
+import os
 from vlib import build, core
 
-HARNESSES = {'h_c06/asan': ('h_c06', 'asan'), 'h_c06/plain': ('h_c06', 'plain')}
+_KW = dict(sources=['h_c06.c', 'legacy_vectors.c'], cflags=['-I' + os.path.join(build.REPO, 'tests')], hash_subdirs=['tests'])
+HARNESSES = {'h_c06/asan': ('h_c06', 'asan', _KW), 'h_c06/plain': ('h_c06', 'plain', _KW)}
 
 
 def run(prop, tier, seed, t0):
@@ -15,7 +17,12 @@ def run(prop, tier, seed, t0):
     R.run_sharded(res, exes[1], ['side=0'], n_c, label='h_c06/plain', variant='plain', first=n_c)     # guard pages at native speed, asm paths
     R.run_sharded(res, exes[0], ['side=1'], n_d, label='h_c06/asan', variant='asan')
     R.run_sharded(res, exes[1], ['side=1'], n_d, label='h_c06/plain', variant='plain', first=n_d)
+    # dense sweep: every capacity 0..N+40 on small frames (legacy v0.5-v0.7 and modern), one-shot and streaming
+    n_l = 600 if thorough else 64
+    R.run_sharded(res, exes[0], ['side=2'], n_l, label='h_c06/asan', variant='asan')
+    R.run_sharded(res, exes[1], ['side=2'], n_l, label='h_c06/plain', variant='plain', first=n_l)
     cov = {
+        'dense_capacity_sweep_frames': res.stat('dense_frames'), 'dense_capacity_sweep_runs': res.stat('dense_sweep_runs'), 'dense_sweep_frame_kinds': res.cells.get('dense_kind', {}),
         'evaluations': res.stat('compress_capacity_runs') + res.stat('decode_capacity_runs') + res.stat('inplace_runs') + res.stat('invalid_frame_runs'),
         'distinct_nontrivial': res.ncells('capclass') + res.ncells('dcapclass'),
         'rule': 'per input x parameter vector x entry point: reference run at ZSTD_compressBound gives n and (via R events) header and block end offsets; capacities = {0..20} u {header end..+4} u {block ends +-1,+-2} u {n-3..n+3} u {bound-1,bound,bound+1} u random, '
